@@ -21,6 +21,13 @@ spec->code  every complete script TLC emits is executed on the REAL classes with
             the TLC programs; the points they evaluate are the real starting points the ensemble hands them, the cost
             function is the harness's: it counts and logs every call); after every public call the projected state
             must be what the specification says.
+            (H09) the arguments of every replayed call are written in a rotating spelling (harness/c09_spell.py): bounds
+            as list of tuples / tuple of tuples / list of lists / 2-d array / python ints where whole; npts by keyword /
+            positionally / numpy integer / (lattice) as the layout (n, 1); id omitted / None / 0; sample() and
+            sample_until() positionally / by keyword; all / numpy.all / the count, any / numpy.any / 1, False / 0; limits
+            as int / float / numpy; the Searcher's three value tables (whole numbers, fractions below 1/2, negatives),
+            its tolerance given to the constructor or to Minima(tol) incl. tol = 0 and negative tol (CoarseMinima of
+            Searcher.tla), traj as bool / int, Reset() / Reset(None) / Reset(cache=None, inv=None).
 code->spec  real samplers / searchers with Nelder-Mead / Powell members on the harness's costs; one event per round /
             per ensemble solve, recorded through instance-level observers; TLC validates every trace against the
             Trace_ specs.
@@ -29,6 +36,7 @@ import sys, os, json, random, io, contextlib, shutil, time, warnings, threading
 import numpy as np
 from harness.tlc import run_tlc, scratch_dir, TLCError
 from harness import ensemble_support as S
+from harness import c09_spell as SP       # one abstract input, several concrete spellings (rotation)
 
 INF = 1000000
 BEST = 100
@@ -137,6 +145,13 @@ def seq_term():
     return _ProgramEnd
 
 
+def _holds(fn):
+    try:
+        return bool(fn())
+    except Exception:
+        return False
+
+
 def seed_all(sd):
     random.seed(sd)
     np.random.seed(sd % (2 ** 32))
@@ -177,7 +192,7 @@ def tlc_jobs(a, light=False):
         for v in ("NeverIdleCharge", "NeverResetAfterProgress", "NeverZeroRoundUntil", "NeverManyRoundUntil",
                   "NeverAsIsDeviates", "NeverResetSolved", "NeverTieForBest", "NeverInvalid"):
             jobs.append(("sampler", "design", "solver/MC_Sampler", "MC_Sampler_vac_%s.cfg" % v, 1, v))
-        for v in ("NeverTiedMinima", "NeverGrowingPass", "NeverKeyCollision", "NeverSecondRun", "NeverRetryReset"):
+        for v in ("NeverTiedMinima", "NeverGrowingPass", "NeverKeyCollision", "NeverSecondRun", "NeverRetryReset", "NeverCoarseDiffers"):
             jobs.append(("searcher", "design", "solver/MC_Searcher", "MC_Searcher_vac_%s.cfg" % v, 1, v))
     return jobs
 
@@ -256,43 +271,111 @@ def observe_rounds(smp, budget=60):
     return box
 
 
+def _limit(v, variant):
+    """an iteration / evaluation limit: int, float (the documented default is inf, a float), numpy integer"""
+    how = (variant // 2) % 4
+    SP.TALLY.hit("sampler-limit", ["int", "float", "np.int64", "np.float64"][how])
+    return [int(v), float(v), np.int64(v), np.float64(v)][how]
+
+
 def do_call(smp, c, n, variant=0):
-    """one public call of the script; returns 'ValueError' if it raised that"""
+    """one public call of the script; returns 'ValueError' if it raised that.  `variant` rotates the spelling of every
+    argument: positional / keyword, None given / omitted, all / numpy.all / the count it stands for, int / float / numpy"""
     if c["op"] == "reset":
         smp._reset_sampler()
         return None
     cond = COND[c["cond"]]
     if c["op"] == "sample":
+        v3 = variant % 3
         if c["reset"] == "default":
-            smp.sample(cond) if (cond is not None or variant % 2) else smp.sample()
+            if cond is None and variant % 2 == 0:
+                smp.sample()
+            elif v3 == 1:
+                smp.sample(if_terminated=cond)
+            else:
+                smp.sample(cond)
+        elif v3 == 1:
+            smp.sample(if_terminated=cond, reset_all=RESET[c["reset"]])
+        elif v3 == 2:
+            smp.sample(cond, reset_all=RESET[c["reset"]])
         else:
             smp.sample(cond, RESET[c["reset"]])
+        SP.TALLY.hit("sampler-sample", ["positional", "keywords", "mixed"][v3])
         return None
     kw = {}
+    pos = []
     if c["li"] != -1:
-        kw["iters"] = c["li"]
+        kw["iters"] = _limit(c["li"], variant)
     if c["le"] != -1:
-        kw["evals"] = c["le"]
+        kw["evals"] = _limit(c["le"], variant + 2)
     lt = c["lt"]
+    v4 = variant % 4
     if lt == BEST:
         kw["terminated"] = True
-    elif lt == n and variant % 2 == 0:
-        kw["terminated"] = all
-    elif lt == 1 and variant % 2 == 1:
-        kw["terminated"] = any
+    elif lt == n and v4 != 3:
+        kw["terminated"] = [all, np.all, np.int64(n)][v4]            # 'all' in three spellings (v4 = 3: the plain count)
+    elif lt == 1 and v4 != 0:
+        kw["terminated"] = [None, any, np.any, np.int32(1)][v4]
     elif lt == 0 and variant % 2 == 0:
         kw["terminated"] = False
     elif lt != -1:
         kw["terminated"] = lt
+    if "terminated" in kw:
+        t = kw["terminated"]
+        SP.TALLY.hit("sampler-terminated", "numpy.%s" % t.__name__ if (t is np.all or t is np.any) else
+                     t.__name__ if callable(t) else type(t).__name__)
+    if variant % 5 == 3:                                              # (iters, evals, terminated) positionally
+        pos = [kw.pop("iters", None), kw.pop("evals", None), kw.pop("terminated", None)]
+        SP.TALLY.hit("sampler-until", "positional")
     if cond is not None or variant % 3 == 0:
         kw["if_terminated"] = cond
     if c["reset"] != "default":
         kw["reset_all"] = RESET[c["reset"]]
     try:
-        smp.sample_until(**kw)
+        smp.sample_until(*pos, **kw)
     except ValueError:
         return "ValueError"
     return None
+
+
+def spell_sampler_ctor(kind, bounds, model, n, variant, **kwds):
+    """construct a sampler: bounds as list of tuples / tuple of tuples / list of lists / 2-d array / pairs with python ints
+    where a bound is a whole number; npts by keyword / positionally / as numpy integer / (lattice) as the layout (n, 1, ..);
+    the documented keyword `id` omitted / None / 0 (the falsy id; other ids are an observation left unbound)"""
+    b = [(float(l), float(h)) for l, h in bounds]
+    hb = (variant // 3) % 5
+    if hb == 1:
+        bo, tag = tuple(b), "tuple-of-tuples"
+    elif hb == 2:
+        bo, tag = [list(p) for p in b], "list-of-lists"
+    elif hb == 3:
+        bo, tag = np.array(b, dtype=float), "2d-array"
+    elif hb == 4:
+        bo, tag = [tuple(int(v) if v.is_integer() else v for v in p) for p in b], "python-ints-where-whole"
+    else:
+        bo, tag = list(b), "list-of-tuples"
+    SP.TALLY.hit("sampler-bounds", tag)
+    hi = variant % 3
+    if hi:
+        kwds["id"] = [None, None, 0][hi]
+    SP.TALLY.hit("sampler-id", ["omitted", "None", "0"][hi])
+    hn = (variant // 2) % 5
+    cls = sampler_class(kind)
+    if kind == "lattice" and hn in (3, 4):
+        layout = tuple([n] + [1] * (len(b) - 1)) if variant % 4 < 2 else [1] * (len(b) - 1) + [n]
+        SP.TALLY.hit("sampler-npts", "lattice-layout-%s" % type(layout).__name__)
+        return cls(bo, model, npts=layout, **kwds)
+    if hn == 1:
+        SP.TALLY.hit("sampler-npts", "positional")
+        return cls(bo, model, n, **kwds)
+    if hn == 2 and kind != "mixed":
+        SP.TALLY.hit("sampler-npts", "np.int64")
+        return cls(bo, model, npts=np.int64(n), **kwds)
+    if hn == 3 and kind != "mixed":
+        SP.TALLY.hit("sampler-npts", "positional-np.int32")
+        return cls(bo, model, np.int32(n), **kwds)
+    SP.TALLY.hit("sampler-npts", "keyword")
+    return cls(bo, model, npts=n, **kwds)
 
 
 def snap_sampler(smp, box, bounds):
@@ -310,7 +393,7 @@ def snap_sampler(smp, box, bounds):
             "best": bi, "rounds": box["rounds"], "oob": oob, "n": len(es._allSolvers)}
 
 
-def replay_sampler(b, kind, variant, seed):
+def replay_sampler(b, kind, variant, seed, spelled=True):
     """run one TLC script on a real sampler; returns the per-call snapshots"""
     S.reset()
     PROG.clear()
@@ -322,8 +405,12 @@ def replay_sampler(b, kind, variant, seed):
     snaps = []
     with quiet(), warnings.catch_warnings():
         warnings.simplefilter("ignore")
-        smp = sampler_class(kind)(BOUNDS, cost_dictated, npts=n, solver=SeqSolver(), termination=seq_term(),
-                                  map=S.serial_map)
+        if spelled:
+            smp = spell_sampler_ctor(kind, BOUNDS, cost_dictated, n, variant, solver=SeqSolver(), termination=seq_term(),
+                                     map=S.serial_map)
+        else:
+            smp = sampler_class(kind)(BOUNDS, cost_dictated, npts=n, solver=SeqSolver(), termination=seq_term(),
+                                      map=S.serial_map)
         box = observe_rounds(smp)
         for c in b["script"]:
             box["rounds"] = 0
@@ -401,13 +488,16 @@ def sampler_replay(ck, emitted, a, strides=None, corrupt=False):
             nt = sampler_script_nontrivial(b)
             key = ("s", name, nb)
             ck.case(nontrivial=nt, key=key)
+            def canon_ok():          # the same script with every argument in its canonical spelling
+                return compare_sampler(b, replay_sampler(b, kind, 2 * nb, a.seed * 1000 + nb, spelled=False)) is None
             try:
-                snaps = replay_sampler(b, kind, nb, a.seed * 1000 + nb)
+                snaps = replay_sampler(b, kind, ne, a.seed * 1000 + nb)
             except Exception as ex:
                 ctx = next((o["ctx"] for o in b["obs"] if o["ctx"] != "plain"), "plain")
-                ck.violation("sampler:%s:raised:%s" % (ctx if ctx != "plain" else "replay", type(ex).__name__),
-                             {"behaviour": b, "kind": kind, "error": repr(ex)},
-                             "executing a TLC script on a real %s sampler raised %r" % (kind, ex))
+                sfx = "[spelling]" if _holds(canon_ok) else ""
+                ck.violation("sampler:%s:raised:%s%s" % (ctx if ctx != "plain" else "replay", type(ex).__name__, sfx),
+                             {"behaviour": b, "kind": kind, "spelling-variant": ne, "error": repr(ex)},
+                             "executing a TLC script on a real %s sampler (spelling variant %d) raised %r" % (kind, ne, ex))
                 continue
             ck.trace()
             stats[kind] = stats.get(kind, 0) + 1
@@ -415,7 +505,8 @@ def sampler_replay(ck, emitted, a, strides=None, corrupt=False):
             if diff is not None:
                 c, ctx, bad = diff
                 fields = "+".join(sorted(set(x[0] for x in bad)))
-                ck.violation("sampler:%s:%s" % (ctx if ctx != "plain" else "replay", fields),
+                sfx = "[spelling]" if not (corrupt and ne == 5) and _holds(canon_ok) else ""
+                ck.violation("sampler:%s:%s%s" % (ctx if ctx != "plain" else "replay", fields, sfx),
                              {"behaviour": b, "sampler": kind, "call#": c, "call": b["script"][c],
                               "differences(field,spec,mystic)": bad, "mystic_after_each_call": snaps[:c + 1]},
                              "%s sampler, programs %s, script %s: after call #%d the specification and mystic differ: %s" % (
@@ -583,8 +674,8 @@ def run_sampler_config(cfg):
             kw["maxiter"] = cfg["maxiter"]
         if cfg["maxfun"] is not None:
             kw["maxfun"] = cfg["maxfun"]
-        smp = sampler_class(cfg["kind"])([tuple(b) for b in cfg["bounds"]], S.COSTS[cfg["cost"]], npts=cfg["n"],
-                                         solver=nested, termination=term, map=mapper, **kw)
+        smp = spell_sampler_ctor(cfg["kind"], cfg["bounds"], S.COSTS[cfg["cost"]], cfg["n"], cfg["variant"],
+                                 solver=nested, termination=term, map=mapper, **kw)
         run.attach(smp)
         for c in cfg["script"]:
             run.call(c, cfg["variant"])
@@ -781,6 +872,18 @@ SPOINTS = {1: ((0.5, 1.0), 1.0), 2: ((1.0, 0.0), 0.0), 3: ((1.04, 0.0), 0.0), 4:
 SBOUNDS = [(0.0, 3.0), (0.0, 3.0)]
 MEMTOL = 1
 TOL = 8
+# concretisations of the specification's points (MC_Searcher: En = <<1, 0, 0, 0, 2>>, point 3 rounds onto point 2): the value
+# is the second coordinate.  `exact`: spellings of a tolerance that keeps the values apart (Minima() of the spec), `coarse`:
+# spellings of one that lumps them all (CoarseMinima of the spec).  A = whole numbers; B = fractions below 1/2 (tol = 0 is
+# coarse there); C = negative coordinates and values, the largest value is 0.0
+STABLES = {
+    "A": {"points": SPOINTS, "bounds": SBOUNDS, "exact": [8, 0, 1, 3], "coarse": [-1]},
+    "B": {"points": {1: ((0.5, 0.25), 0.25), 2: ((1.0, 0.0), 0.0), 3: ((1.04, 0.0), 0.0), 4: ((2.0, 0.0), 0.0), 5: ((2.5, 0.4), 0.4)},
+          "bounds": [(0.0, 3.0), (0.0, 3.0)], "exact": [8, 1, 2], "coarse": [0, -1]},
+    "C": {"points": {1: ((-2.5, -1.0), -1.0), 2: ((-2.0, -2.0), -2.0), 3: ((-1.96, -2.0), -2.0), 4: ((-1.0, -2.0), -2.0),
+                     5: ((-0.5, 0.0), 0.0)},
+          "bounds": [(-3.0, 0.0), (-3.0, 0.0)], "exact": [8, 0, 1], "coarse": [-1]},
+}
 
 
 MAPCALLS = [0]
@@ -814,6 +917,16 @@ def snap_searcher(se, nsolves, table):
            sorted(set(vals)) == sorted(se.Values(unique=True)),
            "nsolves": nsolves, "real": len(S.LOG), "nspray": len(se._allSolvers), "traj": bool(se.traj)}
     out["minima"] = sorted((pid(k, True), float(v)) for k, v in se.Minima().items()) if coords else []
+    out["minima2"] = None
+    if coords and "tolarg" in table:           # the other tolerance, given to Minima itself (positionally or by keyword)
+        m2 = se.Minima(table["tolarg"]) if table.get("tolpos") else se.Minima(tol=table["tolarg"])
+        out["minima2"] = sorted((pid(k, True), float(v)) for k, v in m2.items())
+    elif "tolarg" in table:
+        out["minima2"] = []
+    if coords and table.get("tolnone"):        # tol=None means: the constructor's
+        m3 = sorted((pid(k, True), float(v)) for k, v in se.Minima(tol=None).items())
+        if m3 != out["minima"]:
+            out["minima"] = ("Minima(tol=None) differs from Minima()", m3, out["minima"])
     if se.traj:
         if se._allSolvers:
             xa = se.Samples(all=True)
@@ -827,18 +940,54 @@ def snap_searcher(se, nsolves, table):
     return out
 
 
-def replay_searcher(b, sprayer, seed):
+def searcher_spelling(v):
+    """the spelling of one replayed Searcher script, by rotation over its number v"""
+    tname = "ABC"[v % 3]
+    T = STABLES[tname]
+    swap = (v // 3) % 2 == 1                    # the constructor gets the coarse tolerance, Minima(tol) the exact one
+    ex = T["exact"][(v // 6) % len(T["exact"])]
+    co = T["coarse"][(v // 6) % len(T["coarse"])]
+    return {"table": tname, "tol": co if swap else ex, "tolarg": ex if swap else co, "swap": swap,
+            "tolpos": (v // 2) % 2 == 1, "tolnone": v % 4 == 0,
+            "bounds": ["list-of-tuples", "tuple-of-tuples", "list-of-lists", "int-pairs", "2d-array", "np.float64-pairs"][(v // 2) % 6],
+            "ctor": ["keywords", "positional", "np.int64"][v % 3 if v % 9 else 2], "flag": ["bool", "int"][(v // 5) % 2],
+            "search": ["plain", "traj=None,disp=None", "positional-stop"][(v // 4) % 3], "reset": ["()", "(None)", "(cache=None, inv=None)"][v % 3]}
+
+
+def spell_sbounds(bounds, how):
+    b = [(float(l), float(h)) for l, h in bounds]
+    if how == "tuple-of-tuples":
+        return tuple(b)
+    if how == "list-of-lists":
+        return [list(p) for p in b]
+    if how == "int-pairs":
+        return [(int(l), int(h)) for l, h in b]               # the searcher tables' boxes are whole numbers
+    if how == "2d-array":
+        return np.array(b, dtype=float)
+    if how == "np.float64-pairs":
+        return [(np.float64(l), np.float64(h)) for l, h in b]
+    return list(b)
+
+
+def replay_searcher(b, sprayer, seed, spell=None):
     from mystic.search import Searcher
     from mystic.monitors import Monitor
     import mystic.solvers as ms
+    sp = spell or {"table": "A", "tol": TOL, "swap": False, "bounds": "list-of-tuples", "ctor": "keywords", "flag": "bool",
+                   "search": "plain", "reset": "()"}
+    T = STABLES[sp["table"]]
+    SPTS = T["points"]
     S.reset()
     PROG.clear()
     SPROG.clear()
     POINTS.clear()
-    POINTS.update(SPOINTS)
-    table = {"pt": {tuple(float(v) + 0.0 for v in x): p for p, (x, _) in SPOINTS.items()}, "key": {}}
-    for p in sorted(SPOINTS, reverse=True):
-        table["key"][key_of(SPOINTS[p][0])] = p           # the smallest id sharing the key is the representative
+    POINTS.update(SPTS)
+    table = {"pt": {tuple(float(v) + 0.0 for v in x): p for p, (x, _) in SPTS.items()}, "key": {}}
+    for k in ("tolarg", "tolpos", "tolnone"):
+        if k in sp:
+            table[k] = sp[k]
+    for p in sorted(SPTS, reverse=True):
+        table["key"][key_of(SPTS[p][0])] = p           # the smallest id sharing the key is the representative
     solves = [out for h in b["hist"] for out in h]
     for k, out in enumerate(solves):
         for i, prog in enumerate(out):
@@ -849,27 +998,50 @@ def replay_searcher(b, sprayer, seed):
     snaps = []
     with quiet(), warnings.catch_warnings():
         warnings.simplefilter("ignore")
-        se = Searcher(npts=b["n"], retry=b["retry"], tol=8, memtol=MEMTOL, map=counting_map,
-                      sprayer={"buckshot": ms.BuckshotSolver, "lattice": ms.LatticeSolver, "sparsity": ms.SparsitySolver}[sprayer],
-                      seeker=SeqSolver(), traj=b["traj0"] if b["script"][0] not in ("traj_on", "traj_off") else (b["script"][0] == "traj_off"),
-                      repeat=b["repeat"])
+        traj0 = b["traj0"] if b["script"][0] not in ("traj_on", "traj_off") else (b["script"][0] == "traj_off")
+        flag = (lambda v: int(v)) if sp["flag"] == "int" else (lambda v: bool(v))
+        kw = dict(memtol=MEMTOL, map=counting_map,
+                  sprayer={"buckshot": ms.BuckshotSolver, "lattice": ms.LatticeSolver, "sparsity": ms.SparsitySolver}[sprayer],
+                  seeker=SeqSolver(), traj=flag(traj0))
+        if sp["ctor"] == "positional":
+            se = Searcher(b["n"], b["retry"], sp["tol"], repeat=b["repeat"], **kw)
+        elif sp["ctor"] == "np.int64":
+            se = Searcher(npts=np.int64(b["n"]), retry=np.int64(b["retry"]), tol=sp["tol"], repeat=np.int64(b["repeat"]), **kw)
+        else:
+            se = Searcher(npts=b["n"], retry=b["retry"], tol=sp["tol"], repeat=b["repeat"], **kw)
+        bounds = spell_sbounds(T["bounds"], sp["bounds"])
         for op in b["script"]:
             c0 = MAPCALLS[0]
             if op == "search":
-                se.Search(cost_lookup, SBOUNDS, stop=seq_term(), evalmon=Monitor())
+                if sp["search"] == "traj=None,disp=None":
+                    se.Search(cost_lookup, bounds, stop=seq_term(), traj=None, disp=None, evalmon=Monitor())
+                elif sp["search"] == "positional-stop":
+                    se.Search(cost_lookup, bounds, seq_term(), evalmon=Monitor())
+                else:
+                    se.Search(cost_lookup, bounds, stop=seq_term(), evalmon=Monitor())
             elif op == "reset":
-                se.Reset()
+                if sp["reset"] == "(None)":
+                    se.Reset(None)
+                elif sp["reset"] == "(cache=None, inv=None)":
+                    se.Reset(cache=None, inv=None)
+                else:
+                    se.Reset()
+            elif op == "traj_on" and sp["flag"] == "bool" and sp["ctor"] == "positional":
+                se.UseTrajectories()                       # the default IS True
             else:
-                se.UseTrajectories(op == "traj_on")
+                se.UseTrajectories(flag(op == "traj_on"))
             snaps.append(snap_searcher(se, MAPCALLS[0] - c0, table))
     return snaps
 
 
-def compare_searcher(b, snaps, corrupt=False):
-    val = {p: v for p, (_, v) in SPOINTS.items()}
+def compare_searcher(b, snaps, corrupt=False, spell=None):
+    val = {p: v for p, (_, v) in STABLES[(spell or {}).get("table", "A")]["points"].items()}
+    swap = bool((spell or {}).get("swap"))
     for c, (got, exp) in enumerate(zip(snaps, b["obs"])):
         bad = []
-        ecache = sorted(zip(exp["cache"], [float(v) for v in exp["vals"]]))
+        ecache = sorted((k, float(val[k])) for k in exp["cache"])      # (spec: vals[i] = En[cache[i]]; val = its concretisation)
+        if [float(v) for v in exp["vals"]] != [float(STABLES["A"]["points"][k][1]) for k in exp["cache"]]:
+            bad.append(("spec-vals-are-not-En-of-the-keys", exp["vals"], exp["cache"]))
         if corrupt and c == len(snaps) - 1:
             ecache = ecache[:-1]
         if got["nsolves"] != exp["nsolves"]:
@@ -878,8 +1050,12 @@ def compare_searcher(b, snaps, corrupt=False):
             bad.append(("real-calls", exp["real"], got["real"]))
         if got["cache"] != ecache:
             bad.append(("cache", ecache, got["cache"]))
-        if got["minima"] != sorted((k, float(val[k])) for k in exp["minima"]):
-            bad.append(("minima", sorted(exp["minima"]), got["minima"]))
+        # Minima() under the constructor's tolerance and Minima(tol) under the other one: exact <-> Minima, coarse <-> CoarseMinima
+        e1, e2 = (exp["minimaC"], exp["minima"]) if swap else (exp["minima"], exp.get("minimaC", []))
+        if got["minima"] != sorted((k, float(val[k])) for k in e1):
+            bad.append(("minima-coarse-tol" if swap else "minima", sorted(e1), got["minima"]))
+        if got.get("minima2") is not None and got["minima2"] != sorted((k, float(val[k])) for k in e2):
+            bad.append(("minima(tol)" if swap else "minima(tol)-coarse", sorted(e2), got["minima2"]))
         if got["archive"] != sorted(exp["archive"]) or not got["archive_vals_ok"]:
             bad.append(("archive", sorted(exp["archive"]), got["archive"]))
         if not got["unique_ok"]:
@@ -924,19 +1100,30 @@ def searcher_replay(ck, emitted, a, stride=1, corrupt=False):
             ne += 1
             spr = sprayers[nb % 5] if nb % 30 else "sparsity"
             ck.case(nontrivial=searcher_script_nontrivial(b), key=("q", name, nb))
+            spell = searcher_spelling(ne)
+            for k, v in spell.items():
+                if k not in ("tolpos", "tolnone", "swap"):
+                    SP.TALLY.hit("searcher-" + k, str(v))
+
+            def canon_ok():
+                d = compare_searcher(b, replay_searcher(b, spr, a.seed * 1000 + nb))
+                return d is None
             try:
-                snaps = replay_searcher(b, spr, a.seed * 1000 + nb)
+                snaps = replay_searcher(b, spr, a.seed * 1000 + nb, spell)
             except Exception as ex:
-                ck.violation("searcher:replay:raised:%s" % type(ex).__name__, {"behaviour": b, "sprayer": spr, "error": repr(ex)},
-                             "executing a TLC script on a real Searcher (%s) raised %r" % (spr, ex))
+                sfx = "[spelling]" if _holds(canon_ok) else ""
+                ck.violation("searcher:replay:raised:%s%s" % (type(ex).__name__, sfx),
+                             {"behaviour": b, "sprayer": spr, "spelling": spell, "error": repr(ex)},
+                             "executing a TLC script on a real Searcher (%s, written as %s) raised %r" % (spr, spell, ex))
                 continue
             ck.trace()
-            diff = compare_searcher(b, snaps, corrupt=(corrupt and ne == 3))
+            diff = compare_searcher(b, snaps, corrupt=(corrupt and ne == 3), spell=spell)
             if diff is not None:
                 c, bad = diff
                 fields = "+".join(sorted(set(x[0] for x in bad)))
-                ck.violation("searcher:replay:" + fields,
-                             {"behaviour": b, "sprayer": spr, "call#": c, "call": b["script"][c],
+                sfx = "[spelling]" if not (corrupt and ne == 3) and _holds(canon_ok) else ""
+                ck.violation("searcher:replay:" + fields + sfx,
+                             {"behaviour": b, "sprayer": spr, "spelling": spell, "call#": c, "call": b["script"][c],
                               "differences(field,spec,mystic)": bad, "mystic_after_each_call": snaps[:c + 1]},
                              "Searcher(npts=%d, retry=%d, repeat=%d) on %s, script %s, solve outcomes %s: after call #%d "
                              "the specification and mystic differ: %s" % (b["n"], b["retry"], b["repeat"], spr, b["script"],
@@ -1311,6 +1498,14 @@ def sampler_mutants():
     m.append(("Samples()/Trajectories lose the first record of every seeker", "searcher",
               lambda: patch(Q, "Trajectories", "values = read_trajectories(getattr(seeker,mon), iter=True)",
                             "values = [v[1:] for v in read_trajectories(getattr(seeker,mon), iter=True)]")))
+    # ---- mutants that only the rotated SPELLINGS can show (H09)
+    m.append(("[spelling] sample_until(terminated=numpy.all) is not recognised as 'all'", "sampler",
+              lambda: patch(A, "sample_until", "if terminated is all or terminated is all_:", "if terminated is all:")))
+    m.append(("[spelling] Minima(tol=0): 'tol or self.tol' takes the legal 0 for missing", "searcher",
+              lambda: patch(Q, "Minima", "if tol is None: tol=self.tol", "tol = tol or self.tol")))
+    m.append(("[spelling] Search keeps only the FIRST pair of bounds objects it can index as tuples (lists / arrays of pairs fall back to the unit box)", "searcher",
+              lambda: patch(Q, "_configure", "_min, _max = zip(*bounds)",
+                            "_min, _max = zip(*bounds) if all(isinstance(b, tuple) for b in bounds) else zip(*([(0.0, 1.0)] * len(bounds)))")))
     m.append(("only the best seeker's point is cached", "searcher",
               lambda: patch(Q, "_memoize", "            for _solver in solver._allSolvers:\n                bestSol = tuple(_solver.bestSolution)",
                             "            for _solver in [solver._bestSolver]:\n                bestSol = tuple(_solver.bestSolution)")))
